@@ -8,14 +8,14 @@ from harness.core import llit, qlit, zlit
 
 IMPORTS = "From Coq Require Import ZArith QArith List.\nImport ListNotations.\nFrom Elex Require Import Model.Versioned.\n"
 
-RULE = ("generated version histories per unit (1-12 versions; repeated versions, zero-vote versions, downward revisions, impossible batches, "
+RULE = ("generated version histories per unit (1-12 versions; repeated versions, zero-vote versions, downward revisions, exact reverts to an earlier version, impossible batches, "
         "expected-vote percentages re-scaled after the fact, final turnout 0; integer and float result columns) run through "
         "VersionedDataHandler.compute_versioned_margin_estimate; the returned frame (error type, one row per whole percent, imputed margin and "
         "correction) is compared inside Coq with the exact-rational model (1e-9 relative; a percent coinciding with a re-scaled observation "
         "percent is not compared and is counted); the statement (range, convexity, before-first, domain, correction, all-missing on irregular "
         "histories) is re-evaluated on the output. distinct = (number of versions, kind, dtype, error type); non-trivial = >= 3 versions")
 
-KINDS = ["regular", "regular", "regular", "rescaled", "repeat", "zero_first", "downward", "bad_batch", "zero_final", "single", "reattributed"]
+KINDS = ["regular", "regular", "regular", "rescaled", "repeat", "zero_first", "downward", "bad_batch", "zero_final", "single", "reattributed", "revert", "pev_revert"]
 
 
 def gen_history(rng, kind):
@@ -71,6 +71,18 @@ def gen_history(rng, kind):
         if k == len(rows) - 1:
             pev = final_pev
         out.append({"results_dem": d, "results_gop": g, "results_turnout": t, "percent_expected_vote": pev})
+    if kind == "revert" and len(out) >= 3:
+        # a published version is retracted: the unit goes back EXACTLY to an earlier version (twice), then nothing else happens.
+        # Non-monotone turnout: the history is irregular although every version taken alone is a duplicate of one seen before
+        j = rng.randrange(0, len(out) - 1)
+        if out[j]["results_turnout"] < out[-1]["results_turnout"]:
+            out = out + [dict(out[j]), dict(out[j])]
+    if kind == "pev_revert" and len(out) >= 2:
+        # the provider raises its expected-vote estimate and takes it back, votes unchanged: regular history, latest percent = the lower one
+        last = out[-1]
+        up = dict(last, percent_expected_vote=min(100, last["percent_expected_vote"] + 4)) if last["percent_expected_vote"] <= 96 else None
+        if up:
+            out = out + [up, dict(up), dict(last), dict(last)]
     return out
 
 
